@@ -1,27 +1,43 @@
 /-
   C08 — on-the-wire mailbox view consistency across sessions.
-  Property theorems only; helper lemmas live in GoImap/Lemmas/Views*.lean.
+  Property theorems only; definitions used in the statements (`judge`, `Reach`, `GInv`, `ViewRel`,
+  `seqNums`, `kQuiet`/`kSeq`/`kStart`, `runAll`) and all helper lemmas live in GoImap/Lemmas/Views*.lean.
 
-  Status (phase 1):
-    no_expunge_in_poll          a poll that may not report expunges puts no EXPUNGE on the wire
-    legacy_move_counterexample  MOVE before ff6340e: `MOVE 2` of 3 messages sends `* 3 EXPUNGE`, `* 2 EXPUNGE`
-                                and the oracle (Spec/Views.lean) rejects the stream; the repaired code's passes
-    legacy_fetch_counterexample FETCH before eb5339c: UID FETCH of a message not yet announced sends `* 0 FETCH`
-  Validated by the oracle on every run, theorems pending: in_range, no_expunge_in (whole commands),
-  shrink_only_by_expunge, each_removed_once, noop_sync.
+  Setting. `Views.exec {}` is the mirror of the server + in-memory backend for one command of one
+  connection (Model/Views.lean, over C07's tracker mirror). `ViewsSpec.stepView` folds the response the
+  connection receives into its ANNOUNCED VIEW, rebuilt from the wire only (Spec/Views.lean), and fails
+  exactly when one of the property's clauses is violated; `judge` runs a whole history this way and is
+  what the differential driver evaluates on the implementation's events. `Reach nmb nconn st A`: the
+  state `st` and the announced views `A` are reached by some history from the initial state.
+
+  Status: all five targets of DESIGN §5.8 proved for ALL histories (any number of mailboxes and
+  connections, any interleaving of APPEND / SELECT / CLOSE / UNSELECT / STORE / EXPUNGE / UID EXPUNGE / COPY /
+  MOVE / FETCH / SEARCH / NOOP / IDLE..DONE, UID and non-UID, every number set incl. "*"):
+    oracle_accepts, no_panic        the oracle never fails on the model, the model never panics
+    in_range                        clause 1 (corollary of C07's encode_spec / poll_expected via `GInv`)
+    no_expunge_in                   clause 2 (corollary of C07's poll_no_expunge)
+    shrink_only_by_expunge          clause 3a
+    each_removed_once               clause 3b: labels never repeat; with noop_sync and 3a, the EXPUNGE events
+                                    between two NOOPs remove exactly the messages that left the mailbox
+    noop_sync                       clause 4 (corollary of C07's noop_sync): same length, every labelled
+                                    slot carries the UID at that position
+    no_expunge_in_poll, legacy_move_counterexample, legacy_fetch_counterexample (findings F09/F10)
+  Partial by design, not by proof: "*" under a stale view is resolved as the code does (against the
+  server's count, DESIGN §7 Q1). Not stated: that the UID FETCH 1:* of a check point labels every slot
+  (the oracle checks it on every run).
 -/
 import GoImap.Model.Views
 import GoImap.Spec.Views
-import GoImap.Lemmas.ViewsBasic
+import GoImap.Lemmas.ViewsSpecFacts
 import GoImap.Props.C07
 namespace GoImap.C08
-open GoImap.Tracker GoImap.Views GoImap.ViewsSpec GoImap.ViewsLemmas
+open GoImap.Tracker GoImap.TrackerSpec GoImap.TrackerLemmas GoImap.Views GoImap.ViewsSpec GoImap.ViewsLemmas
 
 /-- the poll that follows a FETCH, STORE or SEARCH that is not a UID command (allowExpunge = false)
-    sends no EXPUNGE to the connection -/
+    sends no EXPUNGE to the connection — in any state -/
 theorem no_expunge_in_poll {st st' : Views.St} {c : Nat} {evs : List Ev}
     (h : pollConn st c false = some (st', evs)) : ∀ k, Ev.expunge k ∉ evs := by
-  rcases pollConn_some h with ⟨rfl, _⟩ | ⟨cn, m, b, t, out, _, _, _, hstep, rfl, _⟩
+  rcases pollConn_some h with ⟨rfl, _, _⟩ | ⟨cn, m, b, t, out, _, _, _, hstep, rfl, _⟩
   · intro k hk; cases hk
   · apply render_no_expunge
     simp only [step] at hstep
@@ -33,18 +49,153 @@ theorem no_expunge_in_poll {st st' : Views.St} {c : Nat} {evs : List Ev}
       obtain ⟨_, rfl⟩ := hstep
       exact (C07.poll_no_expunge _).1
 
+/-! ## all histories -/
+
+/-- for every history, with any number of mailboxes and connections, the oracle accepts everything
+    the model puts on the wire: `judge` never fails -/
+theorem oracle_accepts (nmb nconn : Nat) (ops : List (Nat × Cmd)) :
+    ∃ st A, judge {} (Views.init nmb nconn) (List.replicate nconn []) ops = .ok (st, A) := by
+  obtain ⟨st, A, _, h, _⟩ := judge_accepts ops (ginv_init nmb nconn)
+  exact ⟨st, A, h⟩
+
+example : ∃ st A, judge {} (Views.init 2 2) [[], []]
+    [(0, .append 0 1), (0, .select 0), (1, .select 0), (1, .expunge), (0, .fetch false [(1, 0)] true false),
+     (0, .noop)] = .ok (st, A) ∧ A = [[], []] := ⟨_, _, rfl, by decide⟩
+
+/-- every state reached by a history carries the invariant: each mailbox's tracker is in C07's `Inv`
+    with a ghost mailbox, each selected connection's announced view is its ghost session's view -/
+theorem reach_inv {nmb nconn : Nat} {st : Views.St} {A : List View} (h : Reach nmb nconn st A) :
+    ∃ G, GInv st G A := reach_ginv h
+
+/-- in a reachable state no command makes the model panic (the tracker's range checks, a missing
+    session, a misaligned payload never happen), and the oracle accepts its response -/
+theorem no_panic {nmb nconn : Nat} {st : Views.St} {A : List View} (h : Reach nmb nconn st A) (c : Nat) (cmd : Cmd) :
+    (exec {} st c cmd).2.status ≠ .crash ∧
+    ∃ Ac, stepView (kindOf cmd) (exec {} st c cmd).2 (A.getD c []) = .ok Ac := by
+  obtain ⟨G, hG⟩ := reach_ginv h
+  obtain ⟨h1, _, Ac, h2, _⟩ := exec_accepts hG c cmd
+  exact ⟨h1, Ac, h2⟩
+
+/-- what the response of a command is folded into: the view before it (the empty view for SELECT) with
+    the oracle's parameters for the kind of command; always defined in a reachable state -/
+theorem response_accepted {nmb nconn : Nat} {st : Views.St} {A : List View} (h : Reach nmb nconn st A) (c : Nat)
+    (cmd : Cmd) :
+    ∃ v', applyEvs (kQuiet (kindOf cmd)) (kSeq (kindOf cmd)) (kStart (kindOf cmd) (A.getD c []))
+      (exec {} st c cmd).2.evs = .ok v' := by
+  obtain ⟨G, hG⟩ := reach_ginv h
+  obtain ⟨hcr, _, Ac, hv, _, hskip⟩ := exec_accepts hG c cmd
+  cases hs : (exec {} st c cmd).2.status with
+  | skip => rw [hskip hs]; exact ⟨_, rfl⟩
+  | crash => exact absurd hs hcr
+  | ok => simp only [stepView, hs] at hv; exact afterResp_ok hv
+  | no => simp only [stepView, hs] at hv; exact afterResp_ok hv
+  | bad => simp only [stepView, hs] at hv; exact afterResp_ok hv
+  | cont => simp only [stepView, hs] at hv; exact afterResp_ok hv
+
+/-- clause 1. Every sequence number the server sends — in a FETCH, an EXPUNGE, the results of a SEARCH
+    that is not a UID command — lies between 1 and the count announced on that connection AT THAT
+    MOMENT: `vm` is the announced view after the events `pre` that precede the event `e` in the response -/
+theorem in_range {nmb nconn : Nat} {st : Views.St} {A : List View} (h : Reach nmb nconn st A) (c : Nat) (cmd : Cmd)
+    {pre post : List Ev} {e : Ev} (hsplit : (exec {} st c cmd).2.evs = pre ++ e :: post) :
+    ∃ vm, applyEvs (kQuiet (kindOf cmd)) (kSeq (kindOf cmd)) (kStart (kindOf cmd) (A.getD c [])) pre = .ok vm ∧
+      ∀ n ∈ seqNums (kSeq (kindOf cmd)) e, 1 ≤ n ∧ n ≤ vm.length := by
+  obtain ⟨v', hv⟩ := response_accepted h c cmd
+  rw [hsplit] at hv
+  obtain ⟨vm, vm', h1, h2, _⟩ := applyEvs_split hv
+  exact ⟨vm, h1, applyEv_inRange h2⟩
+
+/-- clause 2. While answering a FETCH, STORE or SEARCH that is not a UID command no EXPUNGE is sent -/
+theorem no_expunge_in {nmb nconn : Nat} {st : Views.St} {A : List View} (h : Reach nmb nconn st A) (c : Nat)
+    (cmd : Cmd) (hk : kindOf cmd = .quiet) : ∀ k, Ev.expunge k ∉ (exec {} st c cmd).2.evs := by
+  obtain ⟨v', hv⟩ := response_accepted h c cmd
+  rw [hk] at hv
+  exact applyEvs_quiet hv
+
+example : kindOf (.store false [(1, 0)] .add 1 false) = .quiet ∧ kindOf (.fetch false [(0, 0)] true true) = .quiet ∧
+    kindOf (.search false ⟨some [(2, 0)], none, 0, 1⟩ true) = .quiet ∧ kindOf (.fetch true [(1, 0)] false false) = .other :=
+  ⟨rfl, rfl, rfl, rfl⟩
+
+/-- clause 3a. The announced count shrinks only through EXPUNGE: an EXPUNGE removes exactly one
+    announced slot, every other event leaves the count or lets it grow -/
+theorem shrink_only_by_expunge {nmb nconn : Nat} {st : Views.St} {A : List View} (h : Reach nmb nconn st A) (c : Nat)
+    (cmd : Cmd) {pre post : List Ev} {e : Ev} (hsplit : (exec {} st c cmd).2.evs = pre ++ e :: post) :
+    ∃ vm vm', applyEvs (kQuiet (kindOf cmd)) (kSeq (kindOf cmd)) (kStart (kindOf cmd) (A.getD c [])) pre = .ok vm ∧
+      applyEv (kQuiet (kindOf cmd)) (kSeq (kindOf cmd)) vm e = .ok vm' ∧
+      ((∃ k, e = .expunge k ∧ vm'.length + 1 = vm.length) ∨ ((∀ k, e ≠ .expunge k) ∧ vm.length ≤ vm'.length)) := by
+  obtain ⟨v', hv⟩ := response_accepted h c cmd
+  rw [hsplit] at hv
+  obtain ⟨vm, vm', h1, h2, _⟩ := applyEvs_split hv
+  exact ⟨vm, vm', h1, h2, applyEv_length h2⟩
+
+/-- clause 4. After NOOP on a connection that has a mailbox selected, the announced view IS the
+    mailbox's message list: the same number of slots, and every slot that carries a label carries the
+    UID of the message at that position -/
+theorem noop_sync {nmb nconn : Nat} {st : Views.St} {A : List View} (h : Reach nmb nconn st A) {c : Nat} {cn : Conn}
+    (hc : st.conns[c]? = some cn) (hi : cn.idle = false) {m : Nat} (hs : cn.sel = some m) :
+    ∃ Ac b, stepView .other (exec {} st c .noop).2 (A.getD c []) = .ok Ac ∧
+      (exec {} st c .noop).1.mb[m]? = some b ∧ Ac.length = b.msgs.length ∧
+      ∀ (j u : Nat), Ac[j]? = some (some u) → (b.msgs[j]?).map (·.uid) = some u := by
+  obtain ⟨G, hG⟩ := reach_ginv h
+  obtain ⟨r, hr⟩ := pollConn_some_of_ginv hG c true
+  obtain ⟨st', evs⟩ := r
+  have hex : exec {} st c .noop = (st', Views.ok evs) := by
+    have hc' : getConn st c = some cn := hc
+    simp only [exec, exec?, hc', hi, hr]
+  obtain ⟨G', Ac, hacc, h', hsync⟩ := ginv_poll hG hr false true (by intro hh; cases hh)
+  obtain ⟨g', hg', hv⟩ := hsync rfl cn m hc hs
+  have hmlt : m < st'.mb.length := by rw [h'.mlen]; exact (List.getElem?_eq_some_iff.mp hg').1
+  have hb : st'.mb[m]? = some st'.mb[m] := List.getElem?_eq_getElem hmlt
+  have hmb := h'.mb m _ g' hb hg'
+  refine ⟨Ac, st'.mb[m], ?_, ?_, ?_, ?_⟩
+  · rw [hex]; simpa [stepView, Views.ok, afterResp] using hacc
+  · rw [hex]; exact hb
+  · rw [hv.length, msgs_length hmb]
+  · intro j u hj
+    obtain ⟨i, hi', hu⟩ := hv.label j hj
+    have h1 : (st'.mb[m].msgs.map (·.uid))[j]? = some u := by
+      rw [hmb.uids]; simp [hi', hu]
+    simpa using h1
+
+/-- clause 3b. In a reachable state the labels of an announced view are pairwise distinct: no message
+    ever occupies two announced slots, so an EXPUNGE (which removes exactly one slot,
+    `shrink_only_by_expunge`, within range, `in_range`) cannot report a message a second time; and by
+    `noop_sync` after NOOP exactly the mailbox's messages are left, so none went unreported -/
+theorem each_removed_once {nmb nconn : Nat} {st : Views.St} {A : List View} (h : Reach nmb nconn st A) (c : Nat) :
+    ((A.getD c []).filterMap id).Nodup := by
+  obtain ⟨G, hG⟩ := reach_ginv h
+  by_cases hc : c < st.conns.length
+  · have hcn : st.conns[c]? = some st.conns[c] := List.getElem?_eq_getElem hc
+    have hci := hG.conn c _ hcn
+    unfold ConnInv at hci
+    cases hs : st.conns[c].sel with
+    | none => rw [hs] at hci; rw [hci.1]; exact List.nodup_nil
+    | some m =>
+      rw [hs] at hci
+      obtain ⟨g, gs, hg, hgs, _, hv, _⟩ := hci
+      have hmlt : m < st.mb.length := by rw [hG.mlen]; exact (List.getElem?_eq_some_iff.mp hg).1
+      have hmb := hG.mb m _ g (List.getElem?_eq_getElem hmlt) hg
+      obtain ⟨s, _, _, _, hnd, _⟩ := sess_pair hmb hgs
+      exact hv.labels_nodup (List.nodup_append.mp hnd).1
+  · have : A.getD c [] = [] := by
+      have : A.length ≤ c := by rw [← hG.clen]; omega
+      simp [List.getD, List.getElem?_eq_none this]
+    rw [this]; exact List.nodup_nil
+
+/-! ## the shipped behaviour before the repairs -/
+
 /-- the history of finding F09: three messages, SELECT, `MOVE 2` to the other mailbox -/
 def f09 : List (Nat × Cmd) :=
   [(0, .append 0 0), (0, .append 0 0), (0, .append 0 0), (0, .select 0), (0, .move false [(2, 2)] 1)]
 
 /-- before ff6340e MOVE wrote `* 3 EXPUNGE` itself (a re-encoded number) and the queued `* 2 EXPUNGE`
-    followed: with 3 messages announced and one moved, the second EXPUNGE removes a message that is
-    still there; replayed twice the count is wrong, and here the oracle already rejects a stream in
-    which an announced view of 3 loses two messages for one removed. The repaired code sends one. -/
+    followed: one removed message is reported twice and the announced count ends one too low, which
+    the oracle rejects at the next synchronisation (`judge` over NOOP + UID FETCH 1:* fails with a
+    number above the count). The repaired code sends the one EXPUNGE. -/
 theorem legacy_move_counterexample :
-    ((runAll { legacyMove := true } (init 2 1) f09).2.map (·.evs)).getLast? =
+    ((runAll { legacyMove := true } (Views.init 2 1) f09).2.map (·.evs)).getLast? =
       some [.copyuid [2] [1], .expunge 3, .expunge 2] ∧
-    ((runAll {} (init 2 1) f09).2.map (·.evs)).getLast? = some [.copyuid [2] [1], .expunge 2] := by
+    ((runAll {} (Views.init 2 1) f09).2.map (·.evs)).getLast? = some [.copyuid [2] [1], .expunge 2] ∧
+    (judge { legacyMove := true } (Views.init 2 1) [[]] (f09 ++ [(0, .fetch true [(1, 0)] false false)])).toOption = none := by
   decide
 
 /-- the history of finding F10: connection 0 has one message announced, connection 1 appends a
@@ -56,11 +207,11 @@ def f10 : List (Nat × Cmd) :=
     (clause 1: 0 is not between 1 and the announced count); the repaired code skips it and announces
     it with the poll that follows -/
 theorem legacy_fetch_counterexample :
-    ((runAll { legacyFetch := true } (init 2 2) f10).2.map (·.evs)).getLast? =
+    ((runAll { legacyFetch := true } (Views.init 2 2) f10).2.map (·.evs)).getLast? =
       some [.fetch 1 1 none, .fetch 0 2 none, .exists_ 2] ∧
     applyEvs false true [none] [.fetch 1 1 none, .fetch 0 2 none, .exists_ 2] =
       .error "fetch-number-out-of-range" ∧
-    ((runAll {} (init 2 2) f10).2.map (·.evs)).getLast? = some [.fetch 1 1 none, .exists_ 2] ∧
+    ((runAll {} (Views.init 2 2) f10).2.map (·.evs)).getLast? = some [.fetch 1 1 none, .exists_ 2] ∧
     applyEvs false true [none] [.fetch 1 1 none, .exists_ 2] = .ok [some 1, none] :=
   ⟨by decide, rfl, by decide, rfl⟩
 
